@@ -451,7 +451,7 @@ func (t *loopTr) makeCall(x *ast.CallExpr) (string, lkind) {
 		t.fail(x, "make of %s", ttv.Type)
 	}
 	if len(x.Args) == 3 {
-		t.expr(x.Args[2]) // the capacity does not influence the value; it must still be in the subset
+		t.expr(x.Args[2]) // the capacity is not modelled (cap = len throughout, see the header); it must still be in the subset
 	}
 	zero := fmt.Sprintf("0#%d", k.elem().width())
 	if ltv := t.typeOf(x.Args[1]); ltv.Value != nil {
@@ -596,6 +596,9 @@ func (s *loopSet) pkgVar(t *loopTr, v *types.Var, at ast.Node) string {
 	k := t.kindOf(v.Type(), at)
 	if !ok || !k.isSlice() {
 		t.fail(at, "package variable %s is not initialised by a slice literal", v.Name())
+	}
+	if n, isArr := arrayLen(v.Type()); isArr && int64(len(cl.Elts)) != n {
+		t.fail(at, "package variable %s: the array literal does not list all %d elements", v.Name(), n)
 	}
 	var parts []string
 	for _, el := range cl.Elts {
